@@ -91,7 +91,8 @@ Section C08.
       + destruct (enter_justified _ _ _ _ _ Hadd Hin) as [links [e [H1 [H2 H3]]]].
         exists l0, l, loaded, verified, links, e.
         split; [unfold get_layout in Hp; destruct (e_payload layout_env); [discriminate | inversion Hp; reflexivity]|]. auto 10.
-      + unfold insp_events in Hin. apply in_map_iff in Hin as [i [Hd _]]. discriminate.
+      + unfold insp_events in Hin. apply in_flat_map in Hin as [i [_ Hi]]. unfold insp_event in Hi.
+        destruct (is_nil (i_run i)); [contradiction|]. destruct Hi as [Hd|[]]. discriminate.
   Qed.
 
   (* nesting: everything a sublayout verification does is recorded at or below its own link directory *)
